@@ -406,6 +406,11 @@ class CallMixin:
     def havoc_modifies(self, st, c, sf, pre_heap):
         """modifies entries: 'expr.field' (one location) | ('Class.field', 'lambda r: pred') | 'alloc'."""
         for m in c.modifies:
+            if m == 'fs':
+                from engine_fs import FS_KIND, FS_TDIR, FS_TNAME, AA
+                for key in (FS_KIND, FS_TDIR, FS_TNAME):
+                    st.heap[key] = z3.Const(fresh_name('fs'), z3.ArraySort(I, AA))
+                continue
             if m == 'clock':
                 key = ('$clock', 0)
                 arr = self.H.get(st.heap, key, R)
@@ -553,6 +558,7 @@ class CallMixin:
 
     def quant(self, e, st, fr, is_forall):
         lam = e.args[0]
+        pats_src = [k.value for k in e.keywords if k.arg == 'pat']
         kinds = [self.reg.kind(a.value) for a in e.args[1:len(lam.args.args) + 1]]
         if len(kinds) != len(lam.args.args):
             raise CheckerError('quantifier needs one kind string per variable')
@@ -568,14 +574,24 @@ class CallMixin:
             if not isinstance(k, KRef):
                 facts += self.type_facts(v, k, st)
         b = self.push_binder(bvs)
+        patterns = []
         try:
             body = asz(truthy(self.ev1(lam.body, st, fr)))
+            for psrc in pats_src:
+                items = psrc.elts if isinstance(psrc, (ast.List, ast.Tuple)) else [psrc]
+                terms = []
+                for it in items:
+                    pv = self.ev1(it, st, fr)
+                    terms.append(lift(pv).t[0])
+                patterns.append(z3.MultiPattern(*terms) if len(terms) > 1 else terms[0])
             self.flush_axioms(st)
         finally:
             fr.bound = saved
             self.close_binder(st, b)
         if facts:
             body = z3.Implies(z3.And(*facts), body) if is_forall else z3.And(z3.And(*facts), body)
+        if patterns:
+            return SB(z3.ForAll(bvs, body, patterns=patterns) if is_forall else z3.Exists(bvs, body, patterns=patterns))
         return SB(z3.ForAll(bvs, body) if is_forall else z3.Exists(bvs, body))
 
     def spec_forall(self, e, st, fr):
